@@ -197,8 +197,14 @@ def contains_set(v):
 
 
 def comment_inside_tuple_key(v):
-    """a comment wrapper below the top of a dict key (an element of a tuple key): such keys are not orderable, so their place under
-    sort_dict_keys=True is decided by object identity (finding K8) and cannot be compared with the model"""
+    """a comment wrapper inside a dict key where the sort key does not look (Lean: not `keyOk`): the sort key drops comments around the
+    key and around the elements of tuple keys at every depth (fix F22); a comment inside any other hashable container used as a key (a
+    frozenset key with a commented element) still makes the key unorderable, and such values are not printed with sort_dict_keys=True here"""
+    def unwrap(x):
+        while isinstance(x, (P._CommentedValue, P._TrailingCommentedValue)):
+            x = x.value
+        return x
+
     def has_comment(x):
         if isinstance(x, (P._CommentedValue, P._TrailingCommentedValue)):
             return True
@@ -208,15 +214,17 @@ def comment_inside_tuple_key(v):
             return any(has_comment(a) or has_comment(b) for a, b in x.items())
         return False
 
+    def key_ok(k):
+        k = unwrap(k)
+        if isinstance(k, tuple):
+            return all(key_ok(e) for e in k)
+        return not has_comment(k)
+
     def walk(x):
-        while isinstance(x, (P._CommentedValue, P._TrailingCommentedValue)):
-            x = x.value
+        x = unwrap(x)
         if isinstance(x, dict):
             for k, y in x.items():
-                k0 = k
-                while isinstance(k0, (P._CommentedValue, P._TrailingCommentedValue)):
-                    k0 = k0.value
-                if has_comment(k0) or walk(k0) or walk(y):
+                if not key_ok(k) or walk(unwrap(k)) or walk(y):
                     return True
             return False
         if isinstance(x, (list, tuple, set, frozenset)):
@@ -472,6 +480,24 @@ def comments_section(tier, seed, mode='c09'):
                     d[pp.comment(k, text) if i == j else k] = i
                 cases.append((d, sorted_sets))
                 cases.append(([d, {pp.trailing_comment(keys[0], text): pp.comment(1, text), keys[1]: 2}], sorted_sets))
+    # ... and tuple keys whose *elements* carry comments, at any depth inside the tuple: ordered by the bare value (F22, formerly K8)
+    for keys in (((2,), (1,)), ((2, 1), (1, 2), (1, 1)), ((1, (3, 2)), (1, (2, 9)), (0, (5, 5))), (('b', 1), ('a', 2))):
+        for text in ('c', 'w1\nw2'):
+            for j in range(len(keys)):
+                for wrap_at in (0, 1, 2):
+                    def wrapped(t, which=[0]):
+                        out = []
+                        for e in t:
+                            if isinstance(e, tuple):
+                                out.append(wrapped(e, which))
+                            else:
+                                out.append(pp.comment(e, text) if which[0] == wrap_at else e)
+                                which[0] += 1
+                        return tuple(out)
+                    d = {}
+                    for i, k in enumerate(keys):
+                        d[wrapped(k, [0]) if i == j else k] = i
+                    cases.append((d, sorted_sets))
     n_rand = 1200 if tier == 'quick' else 15000
     for _ in range(n_rand):
         v = add_comments(rng, V.rand_value(rng, budget=rng.choice([5, 10, 20, 40])), rng.choice([0.15, 0.3, 0.6]))
